@@ -1733,7 +1733,7 @@ fn ksk_roll(rollop: RollOp<'_>, ks: &mut KeySet) -> Result<(), Error> {
                 let KeyType::Ksk(ref keystate) = k.keytype else {
                     continue;
                 };
-                if keystate.stale() {
+                if keystate.old || !keystate.present {
                     continue;
                 }
 
@@ -1780,7 +1780,7 @@ fn ksk_roll(rollop: RollOp<'_>, ks: &mut KeySet) -> Result<(), Error> {
                 let KeyType::Ksk(ref keystate) = k.keytype else {
                     continue;
                 };
-                if keystate.stale() {
+                if keystate.old || !keystate.at_parent {
                     continue;
                 }
 
